@@ -17,3 +17,4 @@ pub mod verif_http;
 pub mod verif_update;
 #[cfg(feature = "verif-hooks")]
 pub mod verif_c12;
+pub mod verif_filter;
